@@ -178,6 +178,9 @@ def run_cases_sized(cid, name, header, cases, budget=60000):
             return idx, {}, ""
         per = max(1, budget // lim) if lim < 10 ** 9 else 1
         codes, log = lib.run_coq_cases(cid, name + tag, header, [cases[i] for i in idx], shard=per, timeout=1500, jobs=5)
+        if codes is None:      # a coqc killed on an overloaded machine must not become a verdict: one calm retry
+            codes, log2 = lib.run_coq_cases(cid, name + tag, header, [cases[i] for i in idx], shard=per, timeout=1500, jobs=2)
+            log = "retried after: " + log[-300:] + " | " + log2
         return idx, codes, log
     out, logs = {}, []
     with ThreadPoolExecutor(max_workers=len(classes)) as ex:
